@@ -11,3 +11,5 @@ open GoSQLXModel
 #print axioms Props.C12.swallowed_semicolon_counterexample
 #print axioms Props.C12.partial_prefix_counterexample
 #print axioms Props.C12.gen_start_keyword_by_type
+#print axioms Loops.rec_new_entries
+#print axioms Props.C12.reported_positions_are_tokens_in_order
